@@ -14,16 +14,19 @@ labelled animal, those keypoints within half a cell in original coordinates, NaN
 What is theorem here is the combinatorial and coordinate content, `reassembly_exact`, stated about
 the model function `BottomUp.forwardSample` and **conditional** only on
 * the skeleton being an arborescence with at least one edge, in any listing (`Toposort.Arbo`, C17),
-* the solver contract of C08 (`Grouping.LsaSpec`: scipy returns a minimum-cost saturating matching;
-  validated by brute force on every recorded call),
+* the solver contract of C08 on the cost matrices of the run (`Grouping.LsaOK`: scipy returns a
+  minimum-cost saturating matching; validated by brute force on every recorded call),
 * H1 (peak stage: every peak within half a confidence-map cell of its scaled keypoint) and
 * H2 (`SepTable`: no NaN score and `Separated` scores, per edge type)
 — H1/H2 are analytic facts about Gaussian / PAF fields of well-separated animals that are **not
 proved**; the harness measures them on every generated scene — plus the configuration
 `min_instance_peaks = 0` (the default).  Parent-first processing and "instance classes =
 components" are no longer assumed: they come from C17 (`toposort_perm`, parent-first order) through
-C08 (`tree_conns`, `assign_classes_eq_components`, `grouping_total_partial`); the local solver
-conditions `LsaStable` come from the one solver contract (`solver_contract_implies_stable`).
+C08 (`tree_conns`, `assign_classes_eq_components`, `grouping_total`, `grouping_total_partial`,
+restated from their lemma files in `Lemmas/BottomUpDeps.lean`); the local solver conditions
+`LsaStable` come from the one solver contract (`solver_contract_implies_stable`).  The model follows
+/repo HEAD (`fixed = true`: matching after the F-C08 repair); every theorem is stated for both
+variants.  `rows_exact` says what the output rows (`pred_instance_peaks`, `pred_peak_values`) hold.
 -/
 namespace SleapVerif.C03
 open SleapVerif SleapVerif.BottomUp SleapVerif.Grouping SleapVerif.Toposort
@@ -257,10 +260,13 @@ theorem forced_assignment_counterexample : ¬ AcceptedEqTrueWeak := by
     0 1 ⟨rfl, rfl⟩
   simp at key
 
-/-- **The repair restores the simple hypothesis.**  When the cost matrix is built from
-`clampLow minLine sc` (all rejected candidates share one score, `fixes/C03-match-ignores-rejected`),
-thresholds alone — true candidates pass, false ones do not — give `Separated`, hence
-`accepted_eq_true`, with no exchange clause. -/
+/-- **What the offered repair buys.**  When the cost matrix is built from `clampLow minLine sc` (all
+rejected candidates share one score, `fixes/C03-match-ignores-rejected`), `Separated` follows from
+thresholds alone — true candidates pass, **every** false one does not — with no exchange clause.
+(On the generated scenes the hypothesis `hF` is *not* always met: dominated false candidates reach
+0.6–0.7 > `min_line_scores`; for those the dominance clauses of `Separated` are still needed, with
+or without the repair.  The theorem shows that the exchange clause — the one F-C03 violates — is an
+artefact of rejected candidates steering the assignment.) -/
 theorem fixed_separated_of_thresholds {sc : Nat → Nat → R} {T : Nat → Nat → Prop} {nr nc : Nat} {minLine : R}
     (inRange : ∀ i j, T i j → i < nr ∧ j < nc)
     (funRow : ∀ i j j', T i j → T i j' → j = j') (funCol : ∀ i i' j, T i j → T i' j → i = i')
@@ -309,18 +315,19 @@ theorem solver_contract_implies_stable {lsa : Lsa R} {C : Mat (Option R)} {M : L
 
 /-! ## grouping -/
 
-/-- **The grouping stage** (`PAFScorer.predict` after scoring = `Grouping.groupSample`, pinned
-matching) on an arborescence in any listing, under the solver contract and H2: it returns; the
-accepted connections are exactly the true visible edges; exactly their endpoints are assigned;
-two peaks share an instance iff a chain of true visible edges joins them.  (C17 → C08
-`tree_conns` → `assign_classes_eq_components`; no assumption on the processing order.) -/
-theorem grouping_reassembly {lsa : Lsa R} {P : Grouping.Params R} {r : Nat} {ch : List Nat}
+/-- **The grouping stage** (`PAFScorer.predict` after scoring = `Grouping.groupSample`; `fixed = true`
+is the matching of /repo HEAD, `false` the pinned one) on an arborescence in any listing, under the
+solver contract and H2: it returns; the accepted connections are exactly the true visible edges;
+exactly their endpoints are assigned; two peaks share an instance iff a chain of true visible edges
+joins them.  (C17 → C08 `tree_conns` → `assign_classes_eq_components`; no assumption on the
+processing order.) -/
+theorem grouping_reassembly {fixed : Bool} {lsa : Lsa R} {P : Grouping.Params R} {r : Nat} {ch : List Nat}
     {scores : List (Mat (Option R))}
     (A : Arbo P.edges r) (ho : toposort P.edges = some P.order)
-    (S : LsaOK false lsa P ch scores) (hmp : P.minPeaks = .int 0)
+    (S : LsaOK fixed lsa P ch scores) (hmp : P.minPeaks = .int 0)
     (T : Nat → Nat → Nat → Prop)
     (H2 : ∀ k e, P.edges[k]? = some e → SepTable (edgeCost ch scores k e) (T k) P.minLine) :
-    ∃ out, groupSample false lsa P ch scores = .ok out ∧
+    ∃ out, groupSample fixed lsa P ch scores = .ok out ∧
       (∀ p q, (p, q) ∈ pairs out.conns ↔
         ∃ k e i j, P.edges[k]? = some e ∧ T k i j ∧ p = (e.1, i) ∧ q = (e.2, j)) ∧
       (∀ p, (lookup out.assign p).isSome ↔ p ∈ endpoints (pairs out.conns)) ∧
@@ -328,36 +335,78 @@ theorem grouping_reassembly {lsa : Lsa R} {P : Grouping.Params R} {r : Nat} {ch 
         (i = j ↔ Connected (pairs out.conns) p q)) :=
   BottomUp.grouping_reassembly A ho S hmp T H2
 
-/-- **Composition**, about the model of `BottomUpInferenceModel.forward` for one sample.
+omit [IsStrictOrderedRing R] in
+/-- how `forwardSample` is made of `toposort` and `groupSample` -/
+theorem forward_of_group {fixed : Bool} {ok : R → Bool} {fl : R → Int} {castI : Int → R} {sqrt : R → R}
+    {P : BottomUp.Params R} {paf : Paf R} {peaks : List (GPeak R)} {lsa : Lsa R} {order : List Nat}
+    {out : Grouping.Output R} (ho : toposort P.edges = some order)
+    (h : groupSample fixed lsa (groupParams P order) (peaks.map (·.ch))
+      (scoreTables ok (peaks.map (·.ch)) P.edges (scoreCands fl castI sqrt P paf peaks)) = .ok out) :
+    ∃ o, forwardSample fixed ok fl castI sqrt P paf peaks lsa = .ok o ∧ o.conns = out.conns ∧
+      o.assign = out.assign ∧ o.rows = globalRows (peaks.map (·.ch)) out.insts ∧
+      o.scores = out.insts.map (·.score) := by
+  simp only [forwardSample, ho]
+  rw [h]
+  exact ⟨_, rfl, rfl, rfl, rfl, rfl⟩
 
-Scene data: `T k i j` — the `i`-th peak of the source node type and the `j`-th peak of the
-destination node type of edge `k` are the two visible ends of that edge in one labelled animal;
-`kp g` — original-image position of the keypoint that the `g`-th detected peak stands for.
+omit [IsStrictOrderedRing R] in
+theorem forward_inv {fixed : Bool} {ok : R → Bool} {fl : R → Int} {castI : Int → R} {sqrt : R → R}
+    {P : BottomUp.Params R} {paf : Paf R} {peaks : List (GPeak R)} {lsa : Lsa R} {o : BottomUp.Output R}
+    (h : forwardSample fixed ok fl castI sqrt P paf peaks lsa = .ok o) :
+    ∃ order out, toposort P.edges = some order ∧
+      groupSample fixed lsa (groupParams P order) (peaks.map (·.ch))
+        (scoreTables ok (peaks.map (·.ch)) P.edges (scoreCands fl castI sqrt P paf peaks)) = .ok out ∧
+      o.conns = out.conns ∧ o.assign = out.assign ∧
+      o.rows = globalRows (peaks.map (·.ch)) out.insts := by
+  unfold forwardSample at h
+  split at h
+  · cases h
+  · rename_i order ho
+    dsimp only at h
+    split at h
+    · cases h
+    · rename_i out hg
+      simp only [Except.ok.injEq] at h
+      subst h
+      exact ⟨order, out, ho, hg, rfl, rfl, rfl⟩
+
+/-- **Composition**, about the model of `BottomUpInferenceModel.forward` for one sample
+(`fixed = true`: /repo HEAD; `false`: the pinned matching — same statement).
+
+The statement is about *peaks*: `T k i j` — the `i`-th peak of the source node type and the `j`-th
+peak of the destination node type of edge `k` are the two visible ends of that edge in one labelled
+animal; `kp g` — original-image position of the keypoint that the `g`-th detected peak stands for.
+That every visible keypoint has exactly one peak and nothing else is detected (the harness' H1) is
+what makes `T`/`kp` total descriptions of the labels; in Lean it is carried by `Separated`
+(`T` functional both ways) and by H1 being asked of *every* detected peak.
 
 Hypotheses: the skeleton is an arborescence with at least one edge, **in any listing**; scipy obeys
-the solver contract; `min_instance_peaks = 0`; **H2** per edge type on the cost matrices of this
-run (`SepTable`); **H1** every detected peak lies within half a confidence-map cell of its scaled
-keypoint.
+C08's solver contract **on the cost matrices of this run** (`LsaOK`); `min_instance_peaks = 0`;
+**H2** per edge type on those matrices (`SepTable`: every candidate score is a finite number — `ok`
+— and the scores are `Separated`); **H1** every detected peak lies within half a confidence-map cell
+of its scaled keypoint.
 
 Conclusion: `forward` returns; its accepted connections are exactly the true visible edges; a peak
-`(node, index)` is part of an instance iff it is an end of a true visible edge (its keypoint has a
-visible neighbour: group of ≥ 2); two peaks share an instance iff a chain of true visible edges
-joins them (same visible-edge-connected group); and the coordinates written for any peak are
-within half a cell, in original-image units, of its keypoint. -/
-theorem reassembly_exact {fl : R → Int} {sqrt : R → R} {P : BottomUp.Params R} {paf : Paf R}
-    {peaks : List (GPeak R)} {lsa : Lsa R} {r : Nat}
+`(node, index)` is part of an instance iff it is an end of a true visible edge (group of ≥ 2); two
+peaks share an instance iff a chain of true visible edges joins them; the coordinates written for
+any peak are within half a cell, in original-image units, of its keypoint.  What the *rows* of the
+output contain is `rows_exact`. -/
+theorem reassembly_exact {fixed : Bool} {ok : R → Bool} {fl : R → Int} {sqrt : R → R}
+    {P : BottomUp.Params R} {paf : Paf R} {peaks : List (GPeak R)} {lsa : Lsa R} {r : Nat}
     (A : Arbo P.edges r) (hne : P.edges ≠ [])
-    (S : LsaSpec lsa) (hmp : P.minPeaks = .int 0)
+    (S : ∀ order, toposort P.edges = some order → LsaOK fixed lsa (groupParams P order) (peaks.map (·.ch))
+      (scoreTables ok (peaks.map (·.ch)) P.edges (scoreCands fl (fun i => (i : R)) sqrt P paf peaks)))
+    (hmp : P.minPeaks = .int 0)
     (T : Nat → Nat → Nat → Prop)
     (H2 : ∀ k e, P.edges[k]? = some e →
       SepTable (edgeCost (peaks.map (·.ch))
-        (scoreTables (peaks.map (·.ch)) P.edges (scoreCands fl (fun i => (i : R)) sqrt P paf peaks)) k e)
+        (scoreTables ok (peaks.map (·.ch)) P.edges (scoreCands fl (fun i => (i : R)) sqrt P paf peaks)) k e)
         (T k) P.minLine)
     (eff : R) (kp : Nat → R × R) (hs : 0 < P.inputScale) (he : 0 < eff)
     (H1 : ∀ g p, peaks[g]? = some p →
       |p.g.1 * (P.cmsStride : R) - P.inputScale * eff * (kp g).1| ≤ (P.cmsStride : R) / 2 ∧
       |p.g.2 * (P.cmsStride : R) - P.inputScale * eff * (kp g).2| ≤ (P.cmsStride : R) / 2) :
-    ∃ o, forwardSample fl (fun i => (i : R)) sqrt P paf peaks lsa = .ok o ∧
+    ∃ o, forwardSample fixed ok fl (fun i => (i : R)) sqrt P paf peaks lsa = .ok o ∧
       (∀ p q, (p, q) ∈ pairs o.conns ↔
         ∃ k e i j, P.edges[k]? = some e ∧ T k i j ∧ p = (e.1, i) ∧ q = (e.2, j)) ∧
       (∀ p, (lookup o.assign p).isSome ↔
@@ -369,19 +418,18 @@ theorem reassembly_exact {fl : R → Int} {sqrt : R → R} {P : BottomUp.Params 
             ≤ (P.cmsStride : R) / 2 / (P.inputScale * eff) ∧
         |(decode P.inputScale eff (peaksImg (fun i => (i : R)) P.cmsStride p.g)).2 - (kp g).2|
             ≤ (P.cmsStride : R) / 2 / (P.inputScale * eff)) := by
-  obtain ⟨order, ho, _⟩ := C17.toposort_perm A hne
-  have hfwd : ∀ out, groupSample false lsa (groupParams P order) (peaks.map (·.ch))
-      (scoreTables (peaks.map (·.ch)) P.edges (scoreCands fl (fun i => (i : R)) sqrt P paf peaks)) = .ok out →
-      ∃ o, forwardSample fl (fun i => (i : R)) sqrt P paf peaks lsa = .ok o ∧
-        o.conns = out.conns ∧ o.assign = out.assign := by
-    intro out h
-    simp only [forwardSample, ho]
-    rw [h]
-    exact ⟨_, rfl, rfl, rfl⟩
-  generalize scoreTables (peaks.map (·.ch)) P.edges (scoreCands fl (fun i => (i : R)) sqrt P paf peaks)
-    = tabs at H2 hfwd
-  generalize peaks.map (·.ch) = ch at H2 hfwd
-  have SO : LsaOK false lsa (groupParams P order) ch tabs := LsaSpec.ok S false _ _ _
+  obtain ⟨order, ho, _⟩ := Deps.toposort_perm A hne
+  have SO := S order ho
+  have hfwd : ∀ out : Grouping.Output R,
+      groupSample fixed lsa (groupParams P order) (peaks.map (·.ch))
+        (scoreTables ok (peaks.map (·.ch)) P.edges (scoreCands fl (fun i => (i : R)) sqrt P paf peaks)) = .ok out →
+      ∃ o, forwardSample fixed ok fl (fun i => (i : R)) sqrt P paf peaks lsa = .ok o ∧
+        o.conns = out.conns ∧ o.assign = out.assign := fun out h => by
+    obtain ⟨o, h0, h1, h2, _, _⟩ := forward_of_group ho h
+    exact ⟨o, h0, h1, h2⟩
+  generalize scoreTables ok (peaks.map (·.ch)) P.edges (scoreCands fl (fun i => (i : R)) sqrt P paf peaks)
+    = tabs at H2 hfwd SO
+  generalize peaks.map (·.ch) = ch at H2 hfwd SO
   obtain ⟨out, h, h1, h2, h3⟩ :=
     BottomUp.grouping_reassembly (P := groupParams P order) (r := r) A ho SO hmp T H2
   obtain ⟨o, ho1, hc, ha⟩ := hfwd out h
@@ -398,28 +446,120 @@ theorem reassembly_exact {fl : R → Int} {sqrt : R → R} {P : BottomUp.Params 
   · rintro ⟨k, e, i, j, hke, hT, hp⟩
     exact ⟨((e.1, i), (e.2, j)), hc ▸ (h1 _ _).mpr ⟨k, e, i, j, hke, hT, rfl, rfl⟩, hp⟩
 
+/-- **The output rows** (`pred_instance_peaks`, `pred_peak_values`) of any returning run on a tree
+skeleton whose edges use node types `< n_nodes`, under the solver contract:
+* there is exactly one row per instance id in use (`sortedIds`: the distinct ids, ascending);
+* the row of instance `id` has `n_nodes` entries and holds at node `n` the detected peak `g` iff
+  `g` is the global index of the peak `(n, k)` assigned to `id` — precisely the members of the
+  instance, `none` (NaN) for every other node;
+* the coordinate written for an entry is `decode (peak · cms_stride)` of **that** peak, within half a
+  cell (original-image units) of its keypoint under H1, its value is that peak's confidence-map
+  value, and empty entries are `none` (NaN) in both. -/
+theorem rows_exact {fixed : Bool} {ok : R → Bool} {fl : R → Int} {sqrt : R → R}
+    {P : BottomUp.Params R} {paf : Paf R} {peaks : List (GPeak R)} {lsa : Lsa R} {r : Nat}
+    {o : BottomUp.Output R}
+    (A : Arbo P.edges r)
+    (S : ∀ order, toposort P.edges = some order → LsaOK fixed lsa (groupParams P order) (peaks.map (·.ch))
+      (scoreTables ok (peaks.map (·.ch)) P.edges (scoreCands fl (fun i => (i : R)) sqrt P paf peaks)))
+    (hnodes : ∀ e ∈ P.edges, e.1 < P.nNodes ∧ e.2 < P.nNodes)
+    (h : forwardSample fixed ok fl (fun i => (i : R)) sqrt P paf peaks lsa = .ok o)
+    (eff : R) (kp : Nat → R × R) (hs : 0 < P.inputScale) (he : 0 < eff)
+    (H1 : ∀ g p, peaks[g]? = some p →
+      |p.g.1 * (P.cmsStride : R) - P.inputScale * eff * (kp g).1| ≤ (P.cmsStride : R) / 2 ∧
+      |p.g.2 * (P.cmsStride : R) - P.inputScale * eff * (kp g).2| ≤ (P.cmsStride : R) / 2) :
+    o.rows.length = (sortedIds o.assign).length ∧ (sortedIds o.assign).Nodup ∧
+    (∀ id, id ∈ sortedIds o.assign ↔ ∃ p, lookup o.assign p = some id) ∧
+    (∀ (idx id : Nat), (sortedIds o.assign)[idx]? = some id →
+      ∃ row : List (Option Nat), o.rows[idx]? = some row ∧ row.length = P.nNodes ∧
+        ∀ (n g : Nat), row[n]? = some (some g) ↔
+          ∃ k, lookup o.assign (n, k) = some id ∧ globalIdx (peaks.map (·.ch)) (n, k) = some g) ∧
+    (∀ row ∈ o.rows, ∀ n : Nat,
+      (row[n]? = some none →
+        (rowCoords (fun i => (i : R)) P eff peaks row)[n]? = some none ∧ (rowVals peaks row)[n]? = some none) ∧
+      (∀ (g : Nat) (p : GPeak R), row[n]? = some (some g) → peaks[g]? = some p →
+        (rowCoords (fun i => (i : R)) P eff peaks row)[n]?
+          = some (some (decode P.inputScale eff (peaksImg (fun i => (i : R)) P.cmsStride p.g))) ∧
+        (rowVals peaks row)[n]? = some (some p.val) ∧
+        |(decode P.inputScale eff (peaksImg (fun i => (i : R)) P.cmsStride p.g)).1 - (kp g).1|
+            ≤ (P.cmsStride : R) / 2 / (P.inputScale * eff) ∧
+        |(decode P.inputScale eff (peaksImg (fun i => (i : R)) P.cmsStride p.g)).2 - (kp g).2|
+            ≤ (P.cmsStride : R) / 2 / (P.inputScale * eff))) := by
+  obtain ⟨order, out, ho, hg, _, ha, hr⟩ := forward_inv h
+  have SO := S order ho
+  generalize scoreTables ok (peaks.map (·.ch)) P.edges (scoreCands fl (fun i => (i : R)) sqrt P paf peaks)
+    = tabs at hg SO
+  obtain ⟨r1, r2, r3, r4⟩ := BottomUp.rows_of_run (P := groupParams P order) (r := r) A ho SO hg hnodes
+  have hrows : o.rows = (sortedIds o.assign).map fun id =>
+      (rowOf o.assign P.nNodes id).mapIdx fun n x => x.bind fun k => globalIdx (peaks.map (·.ch)) (n, k) := by
+    rw [hr, ha]
+    unfold globalRows
+    have : out.insts.map (fun i => i.row.mapIdx fun n x => x.bind fun k => globalIdx (peaks.map (·.ch)) (n, k))
+        = (out.insts.map (·.row)).map (fun row => row.mapIdx fun n x => x.bind fun k => globalIdx (peaks.map (·.ch)) (n, k)) := by
+      simp [List.map_map, Function.comp_def]
+    rw [this, r1]
+    simp [List.map_map, Function.comp_def, groupParams]
+  rw [← ha] at r2 r3 r4
+  refine ⟨by rw [hrows]; simp, r2, r3, ?_, ?_⟩
+  · intro idx id hid
+    refine ⟨(rowOf o.assign P.nNodes id).mapIdx fun n x => x.bind fun k => globalIdx (peaks.map (·.ch)) (n, k),
+      by rw [hrows, List.getElem?_map, hid]; rfl, by simp [rowOf], ?_⟩
+    intro n g
+    rw [List.getElem?_mapIdx]
+    constructor
+    · intro hx
+      cases hrow : (rowOf o.assign P.nNodes id)[n]? with
+      | none => simp [hrow] at hx
+      | some x =>
+        cases x with
+        | none => simp [hrow] at hx
+        | some k =>
+          simp only [hrow, Option.map_some, Option.bind_some, Option.some.injEq] at hx
+          have : (rowOf o.assign (groupParams P order).nNodes id)[n]? = some (some k) := hrow
+          exact ⟨k, (r4 id n k).mp this, hx⟩
+    · rintro ⟨k, hl, hgi⟩
+      have : (rowOf o.assign P.nNodes id)[n]? = some (some k) := (r4 id n k).mpr hl
+      simp [this, hgi]
+  · intro row _ n
+    constructor
+    · intro hn
+      simp [rowCoords, rowVals, List.getElem?_map, hn]
+    · intro g p hn hp
+      refine ⟨by simp [rowCoords, List.getElem?_map, hn, hp], by simp [rowVals, List.getElem?_map, hn, hp], ?_⟩
+      exact decode_within_half_cell P.cmsStride P.inputScale eff p.g (kp g) hs he (H1 g p hp).1 (H1 g p hp).2
+
 /-- **A frame without any detected peak** (no visible keypoint: empty or fully occluded frame)
 yields no instance — whatever the other frames of the batch contain (`forward` treats the samples
-one by one), for every tree skeleton, every `min_instance_peaks`, any PAF tensor. -/
-theorem empty_frame_no_instances {fl : R → Int} {sqrt : R → R} {P : BottomUp.Params R} {paf : Paf R}
-    {lsa : Lsa R} {r : Nat} (A : Arbo P.edges r) (hne : P.edges ≠ []) (S : LsaSpec lsa) :
-    ∃ o, forwardSample fl (fun i => (i : R)) sqrt P paf [] lsa = .ok o ∧
+one by one), for every tree skeleton, every `min_instance_peaks`, any PAF tensor, both variants of
+the matching. -/
+theorem empty_frame_no_instances {fixed : Bool} {ok : R → Bool} {fl : R → Int} {sqrt : R → R}
+    {P : BottomUp.Params R} {paf : Paf R}
+    {lsa : Lsa R} {r : Nat} (A : Arbo P.edges r) (hne : P.edges ≠ [])
+    (S : ∀ order, toposort P.edges = some order → LsaOK fixed lsa (groupParams P order) []
+      (scoreTables ok [] P.edges (scoreCands fl (fun i => (i : R)) sqrt P paf []))) :
+    ∃ o, forwardSample fixed ok fl (fun i => (i : R)) sqrt P paf [] lsa = .ok o ∧
       o.rows = [] ∧ o.scores = [] ∧ o.conns = [] ∧ o.assign = [] := by
-  obtain ⟨order, ho, _⟩ := C17.toposort_perm A hne
+  obtain ⟨order, ho, _⟩ := Deps.toposort_perm A hne
   obtain ⟨out, h, hc, ha, hi⟩ := BottomUp.grouping_empty (P := groupParams P order) (r := r)
-    (scores := scoreTables [] P.edges (scoreCands fl (fun i => (i : R)) sqrt P paf [])) A ho
-    (LsaSpec.ok S false _ _ _)
-  have hf : ∃ o, forwardSample fl (fun i => (i : R)) sqrt P paf [] lsa = .ok o ∧
-      o.rows.length = out.insts.length ∧ o.scores = out.insts.map (·.score) ∧
-      o.conns = out.conns ∧ o.assign = out.assign := by
-    simp only [forwardSample, ho, List.map_nil]
-    rw [h]
-    exact ⟨_, rfl, by simp, rfl, rfl, rfl⟩
-  obtain ⟨o, h0, h1, h2, h3, h4⟩ := hf
-  refine ⟨o, h0, ?_, ?_, h3.trans hc, h4.trans ha⟩
-  · rw [hi] at h1
-    exact List.eq_nil_of_length_eq_zero h1
-  · rw [h2, hi]; rfl
+    (scores := scoreTables ok [] P.edges (scoreCands fl (fun i => (i : R)) sqrt P paf [])) A ho (S order ho)
+  obtain ⟨o, h0, h1, h2, h3, h4⟩ := forward_of_group (peaks := []) ho h
+  refine ⟨o, h0, ?_, ?_, h1.trans hc, h2.trans ha⟩
+  · rw [h3, hi]; rfl
+  · rw [h4, hi]; rfl
+
+/-- **Sibling of F-C03 on /repo HEAD (F-C03b)**: the repaired matching (`matchEdgeFixed`) gives a NaN
+candidate (coincident source and destination peak of animal A) the finite cost `2·Σ|valid| + 1`.  In
+the witness — cost matrix `[[NaN, 0.51], [0.68, −1]]`, i.e. the intact animal B has score 1 — the
+filled matrix `[[5.38, 0.51], [0.68, −1]]` makes the anti-diagonal strictly cheaper than the
+diagonal, so the optimum pairs B's ends with A's ends; both matches score below
+`min_line_scores = 1/4` and are rejected: **B is lost** although its own candidate passes the
+threshold.  (The F-C08 fix removed the raise, not this.) -/
+theorem coincident_pair_counterexample :
+    let C : Mat (Option Rat) := [[none, some (51 / 100)], [some (17 / 25), some (-1)]]
+    fillInvalid C = [[some (269 / 50), some (51 / 100)], [some (17 / 25), some (-1)]] ∧
+    cost (fillInvalid C) [(0, 1), (1, 0)] < cost (fillInvalid C) [(0, 0), (1, 1)] ∧
+    (filterMinScore (1 / 4) (toMatches C [(0, 1), (1, 0)])).length = 0 ∧
+    (entry C 1 1).map Neg.neg = some 1 := by
+  decide +kernel
 
 /-! ## max_instances -/
 
@@ -532,6 +672,42 @@ example : SepTable ([[some (-1), some 0], [some 0, some (-1)]] : Mat (Option Rat
       rw [if_pos]; exact ⟨rfl, h⟩
     rw [e1, e2, e3]
     split_ifs <;> norm_num
+
+/-! ### one concrete end-to-end run (exact arithmetic)
+
+Two horizontal 2-node animals (skeleton `0 → 1`), strides (1, 1), a 9×8 PAF tensor built by the
+writer (`Paf.ofFields`: weight 1, direction +x, on rows 2 and 6, columns 1…5), peaks at the four
+keypoints, `input_scale = 1/2`.  Line scores `[[9/16, −5/16], [−5/16, 9/16]]` (5 samples per line,
+the end point of a true line falls off the band, the penalty `4/… − 1` applies to the diagonals),
+scipy = the identity on the 2×2 matrix.  The run returns the two animals. -/
+
+def e2eG : Nat → Nat → Nat → Nat → Rat := fun e comp row col =>
+  if e = 0 ∧ comp = 0 ∧ (row = 2 ∨ row = 6) ∧ 1 ≤ col ∧ col ≤ 5 then 1 else 0
+def e2ePaf : Paf Rat := Paf.ofFields 9 8 1 e2eG
+/-- `sqrt` on the three squared lengths that occur -/
+def e2eSqrt (x : Rat) : Rat := if x = 16 then 4 else if x = 32 then 28 / 5 else if x = 0 then 0 else 1
+def e2eP : BottomUp.Params Rat :=
+  { nNodes := 2, edges := [(0, 1)], cmsStride := 1, pafStride := 1, ts := linspace (fun i => (i : Rat)) 5,
+    maxLenRatio := 1 / 4, distWeight := 1, minLine := 1 / 4, minPeaks := .int 0, inputScale := 1 / 2 }
+def e2ePeaks : List (GPeak Rat) := [⟨(1, 2), 1, 0⟩, ⟨(5, 2), 1, 1⟩, ⟨(1, 6), 1, 0⟩, ⟨(5, 6), 1, 1⟩]
+def e2eLsa : Lsa Rat := fun C => if nRows C = 2 then some [(0, 0), (1, 1)] else some []
+
+/-- instance map, rows (global peak indices), instance scores, and the decoded first row -/
+def e2eRun : Option (Assign × List (List (Option Nat)) × List Rat × List (Option (Rat × Rat))) :=
+  match forwardSample true (fun _ => true) Rat.floor (fun i => (i : Rat)) e2eSqrt e2eP e2ePaf e2ePeaks e2eLsa with
+  | .ok o => some (o.assign, o.rows, o.scores,
+      rowCoords (fun i => (i : Rat)) e2eP 1 e2ePeaks (o.rows.headD []))
+  | .error _ => none
+
+example : e2eRun.map (·.1) = some [((0, 0), 0), ((1, 0), 0), ((0, 1), 1), ((1, 1), 1)] := by decide +kernel
+example : e2eRun.map (·.2.1) = some [[some 0, some 1], [some 2, some 3]] := by decide +kernel
+example : e2eRun.map (·.2.2.1) = some [9 / 16, 9 / 16] := by decide +kernel
+example : e2eRun.map (·.2.2.2) = some [some (2, 4), some (10, 4)] := by decide +kernel
+
+example : scoreTables (fun _ => true) (e2ePeaks.map (·.ch)) e2eP.edges
+    (scoreCands Rat.floor (fun i => (i : Rat)) e2eSqrt e2eP e2ePaf e2ePeaks)
+    = [[[some (9 / 16), some (-5 / 16)], [some (-5 / 16), some (9 / 16)]]] := by
+  decide +kernel
 
 /-- rounding: ties go to the even cell (`6/4 = 1.5 ↦ 2`, `10/4 = 2.5 ↦ 2`), as `torch.round` -/
 example : roundHalfEven Rat.floor (fun i => (i : Rat)) (3 / 2) = 2 ∧
